@@ -29,6 +29,8 @@ FINDINGS = os.path.join(VERIF, "known_findings.json")
 TRUSTED_BASE_COMMON = [
     "Lean 4.33.0 kernel; axioms of every headline theorem audited with `#print axioms` to be a subset of {propext, Classical.choice, Quot.sound}; no native_decide / bv_decide / sorry / own axioms (textual scan of all .lean sources)",
     "translator harness/translate.py (tables and constants re-extracted from /repo's working tree into lean/Tdms/Generated on every run)",
+    "source-to-Lean translator harness/pyast2lean.py (its subset, signature / attribute tables and abstract callees) and lean/Tdms/Generated/CodePrelude.lean (Python //, %, min, sum, dict and loop combinators) for the *_tied theorems",
+    "lean/Tdms/FormatReference.lean: hand-written transcription of the TDMS format constants (type codes and sizes, ToC masks, index sentinels, DAQmx tags and scaler type codes)",
     "correspondence harness (generators, canonical dumps, diff) tying the hand-written Lean model to the real implementation",
     "modelled, not verified: CPython/NumPy primitives (struct, bytes.decode, dict order, slicing, searchsorted, cumsum, view/reshape, BytesIO), IEEE-754 evaluation, the operating system",
 ]
